@@ -48,6 +48,8 @@ def target_functions():
                           ("push", 32), ("push", 0xC0), ("push", 36), ("push", 0x80), "ADDRESS", ("push", 0xFFFFFF), "STATICCALL", "POP",
                           ("push", 0xC0), "MLOAD", ("push", 1), "SSTORE", "STOP"], "nonpayable")
     F["echo"] = ("echo(uint256)", arg(0) + ["PUSH0", "MSTORE", ("push", 32), "PUSH0", "RETURN"], "view")
+    F["hit"] = ("hit()", e2e.if_then(T + ["TIMESTAMP", "EQ"], sset([("push", 9)]), "h") + ["STOP"], "nonpayable")  # s = 9 iff now == t
+    F["tget"] = ("tget()", ["PUSH0", "TLOAD", "PUSH0", "MSTORE", ("push", 32), "PUSH0", "RETURN"], "view")  # the account's own transient slot 0
     F["get"] = ("get()", S + ["PUSH0", "MSTORE"] + T + [("push", 32), "MSTORE", ("push", 64), "PUSH0", "RETURN"], "view")
     return F
 
